@@ -5,7 +5,7 @@
 set -u
 export GOFLAGS=-mod=mod GOPROXY=off GOSUMDB=off GOTOOLCHAIN=local
 for dir in "$@"; do
-  D=$(mktemp -d); mkdir -p "$D/vd"; cp /verif/known_findings.json /verif/trusted_sites.json "$D/vd/"
+  D=$(mktemp -d); mkdir -p "$D/vd"; cp /verif/known_findings.json /verif/trusted_sites.json /verif/baseline_functions.txt "$D/vd/"
   git -C /repo worktree add -q "$D/w" HEAD || exit 2
   if ! git -C "$D/w" apply "$dir/patch.diff" 2>/dev/null; then echo "$(basename $dir): PATCH DOES NOT APPLY"; git -C /repo worktree remove --force "$D/w"; rm -rf "$D"; continue; fi
   suite=$(cd "$D/w" && go build ./... 2>&1 | head -2; go test -vet=off -count=1 ./... 2>&1 | grep -v "no test files" | grep -v "^ok" | head -3)
